@@ -421,8 +421,9 @@ def eval_get_c_name(ctx, s, groups, cases):
                 # same text, when the name carries no qualifier/ABI words (the backend's names drop them) and up to
                 # the spelling of an empty parameter list
                 if plain and norm(d["get_c_name"]) != norm(d["getctype"]):
-                    ctx.violation(c, "type object %r: get_c_name(%r) = %r, getctype = %r" % (
-                        it["marked"], x["text"], d["get_c_name"], d["getctype"]))
+                    ctx.mismatch(c, "type object %r: get_c_name(%r) = %r, getctype = %r (same type denoted: %s)" % (
+                        it["marked"], x["text"], d["get_c_name"], d["getctype"], d["same"]),
+                        "model.BaseTypeByIdentity.get_c_name vs FFI.getctype (texts; theorem C08_get_c_name_eq_getctype)")
                 nseen += 1
                 if ctx.thorough or nseen % 4 == 0:       # quick: the Coq model is evaluated on a quarter of the pairs
                     coq.append(("(%s, %s)" % (cstr(it["marked"]), cstr(x["text"])), cstr(d["get_c_name"])))
